@@ -54,8 +54,26 @@ func harSetup() {
 
 const exporterID = "verif"
 
-// harObfuscate returns the body the HAR collector exports for `body` on the given side.
+// harObfuscate returns the body the HAR collector exports for `body` on the given side (the other
+// body of the transaction is empty).
 func harObfuscate(side string, exclusions []string, body string) (string, error) {
+	reqBody, respBody := "", ""
+	if side == "req" {
+		reqBody = body
+	} else {
+		respBody = body
+	}
+	ro, so, err := harTxn(exclusions, reqBody, respBody)
+	if side == "req" {
+		return ro, err
+	}
+	return so, err
+}
+
+// harTxn exports ONE transaction carrying both bodies through a fresh collector processor
+// (generateHAR obfuscates the request body, then the response body, with one apiStreamObfuscator)
+// and returns the exported request body and response content.
+func harTxn(exclusions []string, reqBody, respBody string) (string, string, error) {
 	harSetup()
 	params := map[string]streamtypes.ProcessorParam{
 		"exporter_id":                {Name: "exporter_id", Value: public_types.NewParamValue(exporterID)},
@@ -65,13 +83,7 @@ func harObfuscate(side string, exclusions []string, body string) (string, error)
 	}
 	proc, err := harcollector.NewProcessor(&streamtypes.ProcessorMetaData{Name: "verifHAR", Parameters: params})
 	if err != nil {
-		return "", fmt.Errorf("NewProcessor: %w", err)
-	}
-	reqBody, respBody := "", ""
-	if side == "req" {
-		reqBody = body
-	} else {
-		respBody = body
+		return "", "", fmt.Errorf("NewProcessor: %w", err)
 	}
 	st := test_utils.NewMockAPIStreamFull(public_types.StreamTypeResponse, "POST", "https://example.com/v1/things",
 		map[string]string{"x-verif": "1"}, map[string]string{"x-verif": "1"}, reqBody, respBody, 200)
@@ -79,17 +91,17 @@ func harObfuscate(side string, exclusions []string, body string) (string, error)
 	harCap.last = nil
 	harCap.mu.Unlock()
 	if _, err := proc.Execute("verif-flow", st); err != nil {
-		return "", fmt.Errorf("Execute: %w", err)
+		return "", "", fmt.Errorf("Execute: %w", err)
 	}
 	harCap.mu.Lock()
 	rec := harCap.last
 	harCap.mu.Unlock()
 	if rec == nil {
-		return "", fmt.Errorf("no HAR record exported")
+		return "", "", fmt.Errorf("no HAR record exported")
 	}
 	pre := exporterID + " "
 	if len(rec) < len(pre) || string(rec[:len(pre)]) != pre {
-		return "", fmt.Errorf("unexpected record prefix")
+		return "", "", fmt.Errorf("unexpected record prefix")
 	}
 	var har struct {
 		Log struct {
@@ -104,19 +116,16 @@ func harObfuscate(side string, exclusions []string, body string) (string, error)
 		} `json:"log"`
 	}
 	if err := json.Unmarshal(rec[len(pre):], &har); err != nil {
-		return "", fmt.Errorf("HAR record: %w", err)
+		return "", "", fmt.Errorf("HAR record: %w", err)
 	}
 	if len(har.Log.Entries) != 1 {
-		return "", fmt.Errorf("HAR entries: %d", len(har.Log.Entries))
+		return "", "", fmt.Errorf("HAR entries: %d", len(har.Log.Entries))
 	}
-	var p *string
-	if side == "req" {
-		p = har.Log.Entries[0].Request.Body
-	} else {
-		p = har.Log.Entries[0].Response.Content
+	deref := func(p *string) string {
+		if p == nil {
+			return ""
+		}
+		return *p
 	}
-	if p == nil {
-		return "", nil
-	}
-	return *p, nil
+	return deref(har.Log.Entries[0].Request.Body), deref(har.Log.Entries[0].Response.Content), nil
 }
